@@ -162,79 +162,64 @@ def _check_decorator(ck, ctx, dc):
 
 
 def _check_filter(ck, ctx):
+    """filter_out_output / to_dict evaluated abstractly (objabs) for every mode class, every field, provided and not provided,
+    empty and non-empty, against the four documented metadata rules - however the two functions are written"""
+    from ..objabs import ObjInterp
+    from ..pyabs import PyRaise, LexUnknown, NonUniform
     m = ctx.model
-    f = m.func(f"{BASE_MOD}:BaseData.filter_out_output")
-    param = [p for p in f.params if p != "self"]
-    if len(param) != 1:
-        raise AnalysisError("filter_out_output signature changed")
-    fld = param[0]
-    rets = [n for n in ast.walk(f.node) if isinstance(n, ast.Return)]
-    false_rets = [r for r in rets if isinstance(r.value, ast.Constant) and r.value.value is False]
-    true_rets = [r for r in rets if isinstance(r.value, ast.Constant) and r.value.value is True]
-    ck.ob("T-MODE.filter", "filter_out_output ends with `return True`", len(true_rets) == 1 and f.node.body[-1] is true_rets[0]
-          and len(rets) == len(false_rets) + 1, "a field is shown unless one of the exclusion rules applies", f.loc())
-    # which set each metadata key feeds
-    feeds = {}
-    for n in ast.walk(f.node):
-        if isinstance(n, ast.Call) and isinstance(n.func, ast.Attribute) and n.func.attr == "add" and isinstance(n.func.value, ast.Name):
-            atoms = guard_atoms(f.node, S.stmt_of(f, n))
-            feeds.setdefault(n.func.value.id, []).append([a for a in atoms if a[0] != "'<loop>'"])
-    want = {
-        "exclude_always": [("value.metadata.get('exclude_always') is True", True)],
-        "exclude_if_not_provided": [("value.metadata.get('exclude_always') is True", False), ("value.metadata.get('exclude_if_not_provided') is True", True)],
-        "exclude_if_empty": [("value.metadata.get('exclude_always') is True", False), ("value.metadata.get('exclude_if_empty') is True", True)],
-        "output_modes": [("value.metadata.get('exclude_always') is True", False), ("isinstance(value.metadata.get('output_modes'), list)", True),
-                         ("self.output_mode not in value.metadata.get('output_modes')", True)],
-    }
-    set_of = {}
-    for setname, guards in feeds.items():
-        for key, w in want.items():
-            if len(guards) == 1 and guards[0] == w:
-                set_of[key] = setname
-    for key in want:
-        ck.ob("T-MODE.filter", f"metadata `{key}` feeds its own exclusion set", key in set_of,
-              f"no set is filled exactly under {want[key]} (found: {feeds})", f.loc())
-    conds = {
-        "exclude_always": lambda s: [(f"{fld} in {s}", True)],
-        "exclude_if_not_provided": lambda s: [(f"{fld} in {s}", True), (f"{fld} not in self.init_data", True)],
-        "exclude_if_empty": lambda s: [(f"{fld} in {s}", True), (f"self.get({fld})", False)],
-        "output_modes": lambda s: [(f"{fld} in {s}", True)],
-    }
-    found = [[a for a in guard_atoms(f.node, r) if a[1] is True or not a[0].startswith(f"{fld} in ")] for r in false_rets]
-    # drop the negated earlier-sibling conditions (they only order the tests)
-    found = [[a for a in g if not (a[1] is False and (" in " in a[0] and a[0].startswith(fld)))] for g in found]
-    for key, mk in conds.items():
-        if key not in set_of:
-            continue
-        w = mk(set_of[key])
-        ok = any(_same_atoms(g, w) for g in found)
-        ck.ob("T-MODE.filter", f"a field is dropped for `{key}` exactly under {[a[0] for a in w]}", ok,
-              f"`return False` guards found: {found}", f.loc())
-    ck.ob("T-MODE.filter", "exactly four exclusion rules", len(false_rets) == 4, f"{len(false_rets)} `return False`", f.loc())
-    # to_dict: every attribute passing the filter is emitted under its alias
-    for qual in (f"{BASE_MOD}:BaseData.to_dict", f"{DIALECTS_MOD}:BigQuery.to_dict"):
-        g = m.func(qual)
-        loops = [n for n in g.node.body if isinstance(n, ast.For)]
-        ok = len(loops) == 1 and ast.unparse(loops[0].iter) == "self.__dict__.items()"
-        ck.ob("T-MODE.filter", f"{g.qual}: one loop over self.__dict__.items()", ok, "", g.loc())
-        if not ok:
-            continue
-        lp = loops[0]
-        conts = [n for n in ast.walk(lp) if isinstance(n, (ast.Continue, ast.Break, ast.Return))]
-        allowed = 0
-        for c in conts:
-            atoms = guard_atoms(g.node, c)
-            if g.qual == "BigQuery.to_dict" and isinstance(c, ast.Continue) and atoms[-1:] == [("key == 'schema'", True)]:
-                allowed += 1
-            else:
-                ck.ob("T-MODE.filter", f"{g.qual}: unexpected {type(c).__name__.lower()} in the emit loop", False,
-                      f"under {atoms}: attributes would be skipped", g.loc(c))
-        stores = [n for n in ast.walk(lp) if isinstance(n, ast.Assign) and isinstance(n.targets[0], ast.Subscript)]
-        ok = len(stores) == 1 and ast.unparse(stores[0].targets[0]) == "output[name]" and ast.unparse(stores[0].value) == "value" and \
-            ("self.filter_out_output(key) is True", True) in guard_atoms(g.node, stores[0])
-        ck.ob("T-MODE.filter", f"{g.qual}: emits output[alias(key)] = value iff filter_out_output(key)", ok, "", g.loc(lp))
-        ret = g.node.body[-1]
-        ck.ob("T-MODE.filter", f"{g.qual}: returns the assembled dict", isinstance(ret, ast.Return) and ast.unparse(ret.value) == "output", "", g.loc())
+    dc = ctx._get("dcmodel", lambda: DCModel(m))
+    n = 0
+    for mode in sorted(dc.dialect_by_name):
+        _name, mro, fields = dc.mode_class(mode)
+        it = ObjInterp(m, ctx.grammar.tokens_ns, dc)
+        td = it.clsd(("simple_ddl_parser.output.table_data", "TableData"))
+        try:
+            cls = it.call_func(it.lookup(td, "get_dialect_class"), [{"output_mode": mode}], {}, self_obj=td)
+            for provided in (True, False):
+                kwargs = {"output_mode": mode, "table_name": "t", "columns": [], "init_data": {}}
+                if provided:
+                    for fn, fi in fields.items():
+                        if fn in ("init_data", "output_mode", "columns", "table_name"):
+                            continue
+                        shape = fi.default_shape()
+                        if fn in ("unique", "unique_statement", "ref_columns", "references", "constraints", "primary_key"):
+                            kwargs[fn] = {} if shape == "dict" else []        # consumed by the key post-processing: keep them empty
+                        else:
+                            kwargs[fn] = {"k": 1} if shape == "dict" else (["x"] if shape == "list" else "v")
+                        kwargs["init_data"][fn] = kwargs[fn]
+                    kwargs["init_data"]["table_name"] = "t"
+                    kwargs["primary_key"] = []
+                inst = it.construct_inst(cls, [], dict(kwargs))
+                out = it.call_func(it.lookup(inst.cls, "to_dict"), [], {}, self_obj=inst)
+                for fn, fi in fields.items():
+                    md = fi.metadata
+                    val = inst.attrs.get(fn)
+                    hide = md.get("exclude_always") is True
+                    if not hide:
+                        hide = (md.get("exclude_if_not_provided") is True and fn not in inst.attrs.get("init_data", {})) or \
+                               (md.get("exclude_if_empty") is True and not val) or \
+                               (isinstance(md.get("output_modes"), list) and mode not in md["output_modes"])
+                    if mode == "bigquery" and fn == "schema":
+                        hide = True
+                    got = it.call_func(it.lookup(inst.cls, "filter_out_output"), [fn], {}, self_obj=inst)
+                    key = md.get("alias", fn)
+                    n += 1
+                    if got is not (not hide) and not (mode == "bigquery" and fn == "schema"):
+                        ck.ob("T-MODE.filter", f"{mode}: field `{fn}` ({'provided' if provided else 'not provided'}) shown={got}", False,
+                              f"the documented rules (metadata {md}) say shown={not hide}", "BaseData.filter_out_output")
+                    if (key in out) != (not hide):
+                        ck.ob("T-MODE.filter", f"{mode}: to_dict {'emits' if key in out else 'omits'} `{key}` ({'provided' if provided else 'not provided'})", False,
+                              f"the documented rules (metadata {md}) say shown={not hide}", "to_dict")
+                    elif key in out and out[key] is not val and out[key] != val:
+                        ck.ob("T-MODE.filter", f"{mode}: to_dict changes the value of `{key}`", False, f"{out[key]!r} vs {val!r}", "to_dict")
+        except PyRaise as pr:
+            ck.ob("T-MODE.filter", f"{mode}: building / emitting a table object raises", False, f"{type(pr.exc).__name__}: {pr.exc}", "TableData / to_dict")
+        except (LexUnknown, NonUniform) as e:
+            raise AnalysisError(f"output filter outside the interpreted subset (mode {mode}): {e}")
+    ck.ob("T-MODE.filter", f"all {n} (mode, field, provided) combinations", True,
+          "a field is shown unless exclude_always / exclude_if_not_provided and absent / exclude_if_empty and empty / output_modes excludes the mode",
+          "BaseData.filter_out_output, to_dict (evaluated abstractly)")
+    ck.count("filter_combinations_evaluated", n)
 
 
 def _same_atoms(a, b):
